@@ -281,7 +281,7 @@ Definition ack (s : scr) : scr := mkScr (s_buf s) (s_ru s) (s_cy s) false (s_g1 
 (* Screen.draw_screen((maxcol, maxrow), canvas); [same] = "canvas is self._screen_buf_canvas";
    [interrupted] = SIGWINCH is delivered while the rows are being produced (the handler sets _resized
    and forgets the screen buffer): the second "if self._resized: return" abandons the frame before
-   anything but the G1 designation is written, and the screen buffer is NOT updated *)
+   anything but the G1 designation is written; the screen buffer, _rows_used and _cy are NOT updated *)
 Definition draw_screen (c : cfg) (s : scr) (maxcol maxrow : Z) (rows : list crow) (cursor : option (Z * Z)) (same : bool)
                        (interrupted : bool) : result (list tok * scr) :=
   if negb (maxrow =? zlen rows) then Err ValueError else
@@ -298,7 +298,7 @@ Definition draw_screen (c : cfg) (s : scr) (maxcol maxrow : Z) (rows : list crow
                        | Some (x, y) => (set_cursor_position partial (d_cy acc) x y ++ [TShow], y)
                        | None => ([], d_cy acc)      (* the output cursor stays on the last row drawn *)
                        end in
-  if interrupted then Ok (t_g1, mkScr [] (d_ru acc) cy' true true)
+  if interrupted then Ok (t_g1, mkScr [] (s_ru s) (s_cy s) true true)     (* _rows_used restored, _cy not assigned *)
   else Ok (t_g1 ++ d_out acc ++ t_ibm ++ t_cur, mkScr (d_sb acc) (d_ru acc) cy' false true)).
 
 (* ---------- wire format ---------- *)
